@@ -2,12 +2,24 @@
 
 package limit
 
-// C03 correspondence harness: drives the real PeriodLimit and TokenLimiter (several instances sharing one
-// key) against miniredis, which executes the repo's real Lua scripts through gopher-lua.  One operation
-// per trace line; the store clock is moved with FastForward, outages are SetError on/off, the caller's
-// `now` of AllowN is part of the op text.  Generation is separate from execution (replayable).
+// C03 correspondence harness: drives the real PeriodLimit (several instances sharing store and prefix) and
+// TokenLimiter (several instances sharing one key) against miniredis, which executes the repo's real Lua
+// scripts through gopher-lua.  One operation per trace line; the store clock is moved with FastForward;
+// the caller's `now` of AllowN is part of the op text.  Generation is separate from execution (replayable).
+//
+// Faults are injected with ONE miniredis pre-hook whose mode the ops switch:
+//   mode 0  every command is served                                   (op `up`)
+//   mode 1  every command is answered with an error                   (op `down`: store unreachable)
+//   mode 2  only PING is answered with an error                       (op `upstore`)
+// Mode 2 is the seam that makes the monitor goroutine deterministic: pingInterval is a constant and the
+// ticker is created inside waitForRedis, so the harness cannot replace either; but it decides what the
+// goroutine's Ping sees.  `upstore` is "the store answers scripts again, no ping has succeeded yet": every
+// instance that saw the outage stays in rescue mode for as long as the op list wants, instances that did not
+// see it use the store.  `up` lets the pings through and waits until every monitor goroutine has finished.
 
 import (
+	"context"
+	"errors"
 	"fmt"
 	"sort"
 	"strconv"
@@ -18,6 +30,7 @@ import (
 	"time"
 
 	"github.com/alicebob/miniredis/v2"
+	"github.com/alicebob/miniredis/v2/server"
 	"github.com/zeromicro/go-zero/core/logx"
 	"github.com/zeromicro/go-zero/core/stores/redis"
 	"github.com/zeromicro/go-zero/core/timex"
@@ -27,39 +40,117 @@ import (
 const (
 	c03Epoch   = 1700000000 // caller seconds at store clock 0
 	c03DownMsg = "ERR verif store unreachable"
+	c03PingMsg = "ERR verif ping held"
 )
+
+var c03Mode atomic.Int32 // 0 up, 1 down, 2 store up / ping held
+
+var c03Timeouts atomic.Int32 // recoveries that did not happen within the bound, in this process
+
+func c03Hook(c *server.Peer, cmd string, args ...string) bool {
+	switch c03Mode.Load() {
+	case 1:
+		c.WriteError(c03DownMsg)
+		return true
+	case 2:
+		if strings.EqualFold(cmd, "PING") {
+			c.WriteError(c03PingMsg)
+			return true
+		}
+	}
+	return false
+}
+
+// the breaker of the store client counts the failed calls and pings of an outage; its window runs on
+// timex, so a jump of the virtual clock empties it (otherwise it would drop calls at random afterwards)
+func c03CleanBreaker() { timex.VerifAdvance(30 * time.Second) }
 
 // ---------------------------------------------------------------------------------------- generators
 
 func c03GenPeriod(r *verifh.Rng) verifh.Section {
 	quota := r.Pick(1, 2, 3, 5, r.Range(1, 8))
 	period := r.Pick(1, 2, 5, 60, r.Range(1, 10))
+	align := 0
+	switch r.Intn(16) {
+	case 0:
+		quota = r.Pick(0, 0, -1, -3) // never grants
+	case 1:
+		period = r.Pick(0, 0, -1, -5) // EXPIRE <= 0 deletes the counter: never limits
+	case 2, 3:
+		align = 1
+		period = r.Pick(60, 3600, 86400, 7, r.Range(2, 100000))
+	case 4:
+		align = 1
+		period = r.Pick(0, -7, 1) // divide by zero / negative window / window always 1
+	}
+	nlim := r.Pick(1, 1, 2, 3)
 	nkeys := r.Range(1, 3)
+	win := period // longest possible life in seconds (aligned windows are at most `period`)
+	if win < 1 {
+		win = 1
+	}
+	if win > 100000 {
+		win = 100000
+	}
+	panics := align == 1 && period == 0
 	var ops []string
 	nops := r.Range(6, verifh.Scale(40, 70))
 	sinceFirst := 0 // ms since some take, used to aim at the expiry boundary
+	key := func() string { return fmt.Sprintf("k%d", r.Intn(nkeys)) }
 	for j := 0; j < nops; j++ {
-		k := fmt.Sprintf("k%d", r.Intn(nkeys))
+		k := key()
 		switch x := r.Intn(100); {
-		case x < 55:
+		case x < 40:
 			ops = append(ops, "take "+k)
-		case x < 63:
-			ops = append(ops, fmt.Sprintf("ctake %s %d", k, r.Pick(2, 3, quota, quota+1, quota+3, r.Range(2, 8))))
+		case x < 50:
+			ops = append(ops, fmt.Sprintf("takec %s %d", k, r.Intn(nlim)))
+		case x < 53:
+			ops = append(ops, "takex "+k)
+		case x < 59:
+			if panics {
+				continue
+			}
+			m := r.Pick(2, 3, quota, quota+1, quota+3, r.Range(2, 8), r.Range(9, 32))
+			if m < 2 {
+				m = 2
+			}
+			ops = append(ops, fmt.Sprintf("ctake %s %d", k, m))
+		case x < 66:
+			if panics {
+				continue
+			}
+			// goroutines x takes over several limiter instances and keys
+			ks := []string{k}
+			if r.Bool() {
+				ks = nil
+				for q := 0; q < nkeys; q++ {
+					ks = append(ks, fmt.Sprintf("k%d", q))
+				}
+			}
+			g := r.Pick(2, 4, 8, 16, r.Range(2, 12))
+			cnt := r.Pick(1, 2, 3, quota)
+			if cnt < 1 {
+				cnt = 1
+			}
+			if g*cnt > 64 {
+				cnt = 1
+			}
+			ops = append(ops, fmt.Sprintf("cptake %d %d %s", g, cnt, strings.Join(ks, ",")))
 		case x < 90:
 			var ms int
 			switch r.Intn(7) {
 			case 0:
 				ms = 1
 			case 1:
-				ms = period*1000 - 1
+				ms = win*1000 - 1
 			case 2:
-				ms = period * 1000
+				ms = win * 1000
 			case 3:
-				ms = period*1000 - sinceFirst - 1
+				ms = win*1000 - sinceFirst - 1
 			case 4:
-				ms = period*1000 - sinceFirst
+				ms = win*1000 - sinceFirst
 			case 5:
-				ms = r.Range(1, period*1000+500)
+				ms = r.Range(1, win*1000+500)
 			default:
 				ms = r.Range(1, 999)
 			}
@@ -67,34 +158,49 @@ func c03GenPeriod(r *verifh.Rng) verifh.Section {
 				ms = 1
 			}
 			sinceFirst += ms
-			if sinceFirst >= period*1000 {
+			if sinceFirst >= win*1000 {
 				sinceFirst = 0
 			}
 			ops = append(ops, fmt.Sprintf("ft %d", ms))
 		case x < 95:
 			ops = append(ops, "down", "take "+k)
-			if r.Bool() {
+			switch r.Intn(4) {
+			case 0:
 				ops = append(ops, "take "+k)
+			case 1:
+				if !panics {
+					ops = append(ops, fmt.Sprintf("cptake %d 2 %s", r.Range(2, 6), k))
+				}
+			case 2:
+				ops = append(ops, "takex "+k)
 			}
 			if r.Chance(1, 3) {
-				ops = append(ops, fmt.Sprintf("ft %d", r.Range(1, period*1000)))
+				ops = append(ops, fmt.Sprintf("ft %d", r.Range(1, win*1000)))
 			}
 			ops = append(ops, "up")
 		default:
 			// run a life to its end exactly
-			for q := 0; q < quota+1; q++ {
+			q := quota
+			if q < 0 {
+				q = 0
+			}
+			for i := 0; i < q+1; i++ {
 				ops = append(ops, "take "+k)
 			}
-			ops = append(ops, fmt.Sprintf("ft %d", period*1000-1), "take "+k, "ft 1", "take "+k)
+			if align == 0 {
+				ops = append(ops, fmt.Sprintf("ft %d", win*1000-1), "take "+k, "ft 1", "take "+k)
+			} else {
+				ops = append(ops, fmt.Sprintf("ft %d", win*1000), "take "+k)
+			}
 			sinceFirst = 0
 		}
 	}
-	return verifh.Section{Cfg: fmt.Sprintf("kind=period quota=%d period=%d", quota, period), Ops: ops}
+	return verifh.Section{Cfg: fmt.Sprintf("kind=period quota=%d period=%d align=%d nlim=%d", quota, period, align, nlim), Ops: ops}
 }
 
 func c03GenToken(r *verifh.Rng) verifh.Section {
 	var rate, burst int
-	switch r.Intn(10) {
+	switch r.Intn(12) {
 	case 0:
 		rate, burst = 5, 10
 	case 1:
@@ -111,19 +217,30 @@ func c03GenToken(r *verifh.Rng) verifh.Section {
 		rate, burst = r.Pick(3, 7, 9, 11), r.Range(1, 12) // rate does not divide 1e9
 	case 7:
 		rate, burst = 2, 1
+	case 8:
+		rate, burst = r.Range(1, 6), 0 // empty bucket: only n = 0 is ever granted
+	case 9:
+		if r.Chance(1, 3) {
+			rate, burst = 0, r.Range(0, 4) // NewTokenLimiter divides by rate
+		} else {
+			rate, burst = r.Range(1, 12), r.Range(1, 12)
+		}
 	default:
 		rate, burst = r.Range(1, 12), r.Range(1, 12)
 	}
 	ninst := r.Range(1, 3)
-	ttl := 2 * burst / rate
+	ttl := 1
+	ival := 1000000000
+	if rate > 0 {
+		ttl = 2 * burst / rate
+		ival = 1000000000 / rate
+	}
 	if ttl < 1 {
 		ttl = 1
 	}
-	ival := 1000000000 / rate
 	timed := !r.Chance(1, 7)
 	clockMs := 0
 	skewNs := int64(0)
-	lastNs := int64(0)
 	var ops []string
 	now := func() int64 {
 		t := (int64(c03Epoch)*1000+int64(clockMs))*1000000 + skewNs
@@ -174,46 +291,108 @@ func c03GenToken(r *verifh.Rng) verifh.Section {
 		ops = append(ops, fmt.Sprintf("ft %d", ms))
 	}
 	allow := func(i int) {
-		t := now()
-		lastNs = t
-		ops = append(ops, fmt.Sprintf("allow %d %d %d", i, t, size()))
+		verb := "allow"
+		if r.Chance(1, 5) {
+			verb = "allowc"
+		}
+		ops = append(ops, fmt.Sprintf("%s %d %d %d", verb, i, now(), size()))
+	}
+	storm := func() {
+		g := r.Pick(2, 3, 4, 8, 16, r.Range(2, 12))
+		c := r.Pick(1, 1, 2, 3)
+		if g*c > 48 {
+			c = 1
+		}
+		ops = append(ops, fmt.Sprintf("cstorm %d %d %d %d", now(), r.Pick(1, 1, 1, 2, burst, 0, r.Range(1, burst+1)), g, c))
+	}
+	mix := func() {
+		m := r.Range(2, 5)
+		var xs []string
+		for q := 0; q < m; q++ {
+			xs = append(xs, fmt.Sprintf("%d:%d", r.Intn(ninst), r.Pick(1, 1, 2, 3, burst, burst+1, r.Range(0, burst+1))))
+		}
+		ops = append(ops, fmt.Sprintf("cmix %d %s", now(), strings.Join(xs, ",")))
+	}
+	state := 0 // mirrors the hook mode
+	// recovery with a late failure: the store comes back, the monitor of one instance that noticed the outage
+	// has stored redisAlive=1, and the error path of a request that was in flight reaches startMonitor before
+	// the monitor's deferred cleanup; afterwards every instance must be back on the ONE bucket
+	late := func() {
+		i := r.Intn(ninst)
+		ops = append(ops, fmt.Sprintf("allow %d %d 1", i, now()), fmt.Sprintf("latefail %d", i))
+		state = 0
+		ft()
+		for q := 0; q < ninst; q++ {
+			ops = append(ops, fmt.Sprintf("allow %d %d %d", q, now(), r.Pick(1, burst, burst)))
+		}
 	}
 	nops := r.Range(6, verifh.Scale(45, 80))
-	down := false
 	for j := 0; j < nops; j++ {
 		i := r.Intn(ninst)
 		switch x := r.Intn(100); {
-		case x < 50:
+		case x < 42:
 			allow(i)
-		case x < 56:
+		case x < 47:
 			// drain: a burst of requests at one instant over all instances
 			for q := 0; q < burst+2 && q < 14; q++ {
-				t := now()
-				ops = append(ops, fmt.Sprintf("allow %d %d 1", q%ninst, t))
+				ops = append(ops, fmt.Sprintf("allow %d %d 1", q%ninst, now()))
 			}
-		case x < 62:
+		case x < 51:
 			ops = append(ops, fmt.Sprintf("callow %d %d %d", now(), r.Pick(1, 1, 2, burst), ninst))
-		case x < 84:
+		case x < 57:
+			storm()
+		case x < 62:
+			mix()
+		case x < 64:
+			ops = append(ops, fmt.Sprintf("allowx %d %d %d", i, now(), size()))
+		case x < 82:
 			ft()
-		case x < 90:
+		case x < 88:
 			// sub-millisecond skew of the caller clock, aimed at the refill boundaries of the rescue limiter
 			k := int64(r.Range(1, 3))
 			skewNs += k*int64(ival) + int64(r.Pick(-1, 0, 1, 0))
 			if skewNs < 0 {
 				skewNs = 0
 			}
-			_ = lastNs
 			allow(i)
-		case x < 96:
-			if !down {
+		case x < 95:
+			switch state {
+			case 0:
 				ops = append(ops, "down")
-				down = true
-			} else {
-				ops = append(ops, "up")
-				down = false
+				state = 1
+				if r.Bool() {
+					// only some instances notice the outage
+					allow(i)
+				}
+			case 1:
+				switch r.Intn(5) {
+				case 0, 1, 2:
+					// the store is back but no ping has succeeded yet: whoever noticed the outage stays local
+					ops = append(ops, "upstore")
+					state = 2
+					for q := 0; q < ninst; q++ {
+						allow(q)
+					}
+				case 3:
+					late()
+				default:
+					ops = append(ops, "up")
+					state = 0
+				}
+			default:
+				switch r.Intn(4) {
+				case 0:
+					ops = append(ops, "down")
+					state = 1
+				case 1:
+					late()
+				default:
+					ops = append(ops, "up")
+					state = 0
+				}
 			}
 		default:
-			if down {
+			if state != 0 {
 				// exact refill boundary while in rescue mode
 				allow(i)
 				skewNs += int64(ival) - 1
@@ -226,16 +405,40 @@ func c03GenToken(r *verifh.Rng) verifh.Section {
 			}
 		}
 	}
-	if down {
+	if state != 0 {
 		ops = append(ops, "up")
 		allow(0)
 	}
 	return verifh.Section{Cfg: fmt.Sprintf("kind=token rate=%d burst=%d ninst=%d", rate, burst, ninst), Ops: ops}
 }
 
+// arguments nothing validates: negative rate / burst / n (rate = 0 is in c03GenToken: the constructor panics).
+// One limiter, reachable store, no clock advance of the store (the keys never expire); the caller's `now` moves.
+func c03GenTokenZ(r *verifh.Rng) verifh.Section {
+	rate := r.Pick(-1, -2, -5, 1, 2, 3, 5)
+	burst := r.Pick(-3, -1, 0, 1, 2, 5, r.Range(-4, 8))
+	negN := rate > 0 && burst >= 0 // then the negative argument is n
+	sec := int64(c03Epoch)
+	var ops []string
+	for j, nops := 0, r.Range(4, 14); j < nops; j++ {
+		if r.Chance(1, 3) {
+			sec += int64(r.Range(1, 3))
+		}
+		n := r.Pick(1, 0, 2, burst, burst+1, r.Range(-3, 6))
+		if negN && (j == 1 || r.Chance(1, 3)) {
+			n = -r.Range(1, 4)
+		}
+		ops = append(ops, fmt.Sprintf("allow %d %d", sec*1000000000+int64(r.Range(0, 999))*1000000, n))
+	}
+	return verifh.Section{Cfg: fmt.Sprintf("kind=tokenz rate=%d burst=%d", rate, burst), Ops: ops}
+}
+
 func c03Gen(r *verifh.Rng) []verifh.Section {
 	var secs []verifh.Section
-	np, nt := verifh.Scale(40, 400), verifh.Scale(50, 450)
+	for i, nz := 0, verifh.Scale(10, 60); i < nz; i++ {
+		secs = append(secs, c03GenTokenZ(r))
+	}
+	np, nt := verifh.Scale(48, 400), verifh.Scale(50, 450)
 	for i := 0; i < np; i++ {
 		secs = append(secs, c03GenPeriod(r))
 	}
@@ -268,9 +471,17 @@ func c03ErrClass(err error) string {
 		return "nil"
 	case err == ErrUnknownCode:
 		return "unknowncode"
+	case errors.Is(err, context.Canceled):
+		return "canceled"
 	default:
 		return "err"
 	}
+}
+
+func c03Cancelled() context.Context {
+	ctx, cancel := context.WithCancel(context.Background())
+	cancel()
+	return ctx
 }
 
 func TestVerifC03(t *testing.T) {
@@ -281,134 +492,373 @@ func TestVerifC03(t *testing.T) {
 		t.Fatal(err)
 	}
 	defer mr.Close()
+	c03Mode.Store(0)
+	mr.Server().SetPreHook(c03Hook)
 	// the store client carries a circuit breaker whose window runs on timex: a virtual clock lets the
 	// harness age an outage out of the window instead of waiting ten seconds
 	timex.VerifSetNow(time.Duration(1000000) * time.Second)
 	defer timex.VerifClockOff()
 	store := redis.New(mr.Addr())
+	// load both scripts once, sequentially: on a cold store the first EVALSHA of every concurrent caller is
+	// answered NOSCRIPT, which the client's breaker counts as a failure (six of them open it) - that is the
+	// store client's business, not this property's; every run (also a replay) starts warm
+	NewPeriodLimit(1, 1, store, "warm:").Take("x")
+	NewTokenLimiter(1, 1, store, "warm").AllowN(time.Unix(c03Epoch, 0), 1)
 
 	verifh.Run(t, secs, func(cfg verifh.Cfg) (func(op []string) string, func()) {
-		mr.SetError("")
+		c03Mode.Store(0)
 		mr.FlushAll()
-		timex.VerifAdvance(30 * time.Second)
+		c03CleanBreaker()
 		switch cfg.Str("kind", "") {
 		case "period":
 			return c03Period(mr, store, cfg)
 		case "token":
 			return c03Token(mr, store, cfg)
+		case "tokenz":
+			l := NewTokenLimiter(cfg.Int("rate", 1), cfg.Int("burst", 1), store, "k")
+			return func(op []string) string {
+				c03CleanBreaker()
+				if op[0] != "allow" {
+					return "bad-op"
+				}
+				res := "no"
+				if l.AllowN(time.Unix(0, verifh.Atoi64(op[1])), verifh.Atoi(op[2])) {
+					res = "ok"
+				}
+				return fmt.Sprintf("%s a=%d %s %s", res, atomic.LoadUint32(&l.redisAlive),
+					c03Dump(mr, "tok", "{k}.tokens"), c03Dump(mr, "ts", "{k}.ts"))
+			}, nil
 		}
 		return func(op []string) string { return "bad-section" }, nil
 	})
 }
 
+// local wall-clock second as calcExpireSeconds reads it (an environment value the code draws itself)
+func c03LocalUnix() int64 {
+	now := time.Now()
+	_, off := now.Zone()
+	return now.Unix() + int64(off)
+}
+
 func c03Period(mr *miniredis.Miniredis, store *redis.Redis, cfg verifh.Cfg) (func(op []string) string, func()) {
 	const prefix = "p:"
-	l := NewPeriodLimit(cfg.Int("period", 1), cfg.Int("quota", 1), store, prefix)
+	nlim := cfg.Int("nlim", 1)
+	if nlim < 1 {
+		nlim = 1
+	}
+	align := cfg.Int("align", 0) == 1
+	lims := make([]*PeriodLimit, nlim)
+	for i := range lims {
+		if align {
+			lims[i] = NewPeriodLimit(cfg.Int("period", 1), cfg.Int("quota", 1), store, prefix, Align())
+		} else {
+			lims[i] = NewPeriodLimit(cfg.Int("period", 1), cfg.Int("quota", 1), store, prefix)
+		}
+	}
+	one := func(k string, f func() (int, error)) string {
+		u0 := c03LocalUnix()
+		code, err := f()
+		u1 := c03LocalUnix()
+		s := fmt.Sprintf("%d %s %s", code, c03ErrClass(err), c03Dump(mr, "cnt", prefix+k))
+		if align {
+			s += fmt.Sprintf(" u=%d,%d", u0, u1)
+		}
+		return s
+	}
 	step := func(op []string) string {
+		c03CleanBreaker()
 		switch op[0] {
 		case "ft":
 			mr.FastForward(time.Duration(verifh.Atoi(op[1])) * time.Millisecond)
 			return "ok"
 		case "down":
-			mr.SetError(c03DownMsg)
+			c03Mode.Store(1)
 			return "ok"
 		case "up":
-			mr.SetError("")
-			timex.VerifAdvance(30 * time.Second)
+			c03Mode.Store(0)
 			return "ok"
 		case "take":
-			code, err := l.Take(op[1])
-			return fmt.Sprintf("%d %s %s", code, c03ErrClass(err), c03Dump(mr, "cnt", prefix+op[1]))
+			return one(op[1], func() (int, error) { return lims[0].Take(op[1]) })
+		case "takec":
+			j := verifh.Atoi(op[2])
+			if j < 0 || j >= nlim {
+				return "bad-op"
+			}
+			return one(op[1], func() (int, error) { return lims[j].TakeCtx(context.Background(), op[1]) })
+		case "takex":
+			return one(op[1], func() (int, error) { return lims[0].TakeCtx(c03Cancelled(), op[1]) })
 		case "ctake":
 			m := verifh.Atoi(op[2])
+			if m < 1 || m > 64 {
+				return "bad-op"
+			}
 			codes := make([]int, m)
 			var wg sync.WaitGroup
 			start := make(chan struct{})
+			u0 := c03LocalUnix()
 			for g := 0; g < m; g++ {
 				wg.Add(1)
 				go func(g int) {
 					defer wg.Done()
+					defer func() {
+						if recover() != nil {
+							codes[g] = -1
+						}
+					}()
 					<-start
-					c, _ := l.Take(op[1])
+					c, _ := lims[g%nlim].Take(op[1])
 					codes[g] = c
 				}(g)
 			}
 			close(start)
 			wg.Wait()
+			u1 := c03LocalUnix()
 			sort.Ints(codes)
 			ss := make([]string, m)
 			for i, c := range codes {
 				ss[i] = strconv.Itoa(c)
 			}
-			return strings.Join(ss, " ") + " " + c03Dump(mr, "cnt", prefix+op[1])
+			s := strings.Join(ss, " ") + " " + c03Dump(mr, "cnt", prefix+op[1])
+			if align {
+				s += fmt.Sprintf(" u=%d,%d", u0, u1)
+			}
+			return s
+		case "cptake":
+			// g goroutines, goroutine j takes `c` permits of key keys[j % len] on limiter j % nlim
+			g, c := verifh.Atoi(op[1]), verifh.Atoi(op[2])
+			keys := strings.Split(op[3], ",")
+			if g < 1 || c < 1 || g*c > 256 || len(keys) == 0 {
+				return "bad-op"
+			}
+			type tally struct{ a, h, o, u, e, p int64 }
+			tl := make([]tally, len(keys))
+			var wg sync.WaitGroup
+			start := make(chan struct{})
+			u0 := c03LocalUnix()
+			for j := 0; j < g; j++ {
+				wg.Add(1)
+				go func(j int) {
+					defer wg.Done()
+					ki := j % len(keys)
+					defer func() {
+						if recover() != nil {
+							atomic.AddInt64(&tl[ki].p, 1)
+						}
+					}()
+					<-start
+					for q := 0; q < c; q++ {
+						var code int
+						var err error
+						if (j+q)%2 == 0 {
+							code, err = lims[j%nlim].Take(keys[ki])
+						} else {
+							code, err = lims[j%nlim].TakeCtx(context.Background(), keys[ki])
+						}
+						switch code {
+						case Allowed:
+							atomic.AddInt64(&tl[ki].a, 1)
+						case HitQuota:
+							atomic.AddInt64(&tl[ki].h, 1)
+						case OverQuota:
+							atomic.AddInt64(&tl[ki].o, 1)
+						default:
+							atomic.AddInt64(&tl[ki].u, 1)
+						}
+						if err != nil {
+							atomic.AddInt64(&tl[ki].e, 1)
+						}
+					}
+				}(j)
+			}
+			close(start)
+			wg.Wait()
+			u1 := c03LocalUnix()
+			var parts []string
+			for i, k := range keys {
+				x := tl[i]
+				s := fmt.Sprintf("%s=%d:%d:%d:%d:%d", k, x.a, x.h, x.o, x.u, x.e)
+				if x.p > 0 {
+					s += fmt.Sprintf(":panics%d", x.p)
+				}
+				parts = append(parts, s, c03Dump(mr, "cnt", prefix+k))
+			}
+			s := strings.Join(parts, " ")
+			if align {
+				s += fmt.Sprintf(" u=%d,%d", u0, u1)
+			}
+			return s
 		}
 		return "bad-op"
 	}
-	return step, func() { mr.SetError("") }
+	return step, func() { c03Mode.Store(0) }
 }
 
 func c03Token(mr *miniredis.Miniredis, store *redis.Redis, cfg verifh.Cfg) (func(op []string) string, func()) {
 	rate, burst, ninst := cfg.Int("rate", 1), cfg.Int("burst", 1), cfg.Int("ninst", 1)
 	lims := make([]*TokenLimiter, ninst)
-	for i := range lims {
-		lims[i] = NewTokenLimiter(rate, burst, store, "k")
+	newPanic := ""
+	func() {
+		defer func() {
+			if p := recover(); p != nil {
+				newPanic = strings.ReplaceAll(fmt.Sprint(p), " ", "-")
+			}
+		}()
+		for i := range lims {
+			lims[i] = NewTokenLimiter(rate, burst, store, "k")
+		}
+	}()
+	if newPanic != "" {
+		return func(op []string) string { return "newpanic " + newPanic }, nil
 	}
 	dump := func() string {
 		return c03Dump(mr, "tok", "{k}.tokens") + " " + c03Dump(mr, "ts", "{k}.ts")
 	}
-	// every instance back on the store path and its monitor goroutine gone
-	settle := func() bool {
-		deadline := time.Now().Add(20 * time.Second)
+	flags := func(l *TokenLimiter) (alive, started bool) {
+		l.rescueLock.Lock()
+		started = l.monitorStarted
+		l.rescueLock.Unlock()
+		return atomic.LoadUint32(&l.redisAlive) == 1, started
+	}
+	b2s := func(b bool) string {
+		if b {
+			return "1"
+		}
+		return "0"
+	}
+	allFlags := func() string {
+		s := "s="
+		for _, l := range lims {
+			a, m := flags(l)
+			s += b2s(a) + b2s(m)
+		}
+		return s
+	}
+	// both flags read under rescueLock: startMonitor writes both under it, the monitor goroutine stores
+	// redisAlive=1 BEFORE it takes the lock to clear monitorStarted; so (redisAlive=0, monitorStarted=false)
+	// seen under the lock is a state in which no goroutine exists that will ever set redisAlive again
+	lockedFlags := func(l *TokenLimiter) (alive, started bool) {
+		l.rescueLock.Lock()
+		defer l.rescueLock.Unlock()
+		return atomic.LoadUint32(&l.redisAlive) == 1, l.monitorStarted
+	}
+	// every instance back on the store path and its monitor goroutine gone: "ok";
+	// an instance in rescue mode without monitor: "STUCK i" (final, not a matter of waiting); else "" after max
+	settle := func(max time.Duration) string {
+		deadline := time.Now().Add(max)
 		for {
 			all := true
-			for _, l := range lims {
-				l.rescueLock.Lock()
-				started := l.monitorStarted
-				l.rescueLock.Unlock()
-				if started || atomic.LoadUint32(&l.redisAlive) != 1 {
+			for i, l := range lims {
+				a, m := lockedFlags(l)
+				if !a && !m {
+					return fmt.Sprintf("STUCK inst=%d redisAlive=0 monitorStarted=false", i)
+				}
+				if m || !a {
 					all = false
 				}
 			}
 			if all {
-				return true
+				return "ok"
 			}
 			if time.Now().After(deadline) {
-				return false
+				return ""
 			}
 			// keep the breaker's window clean while the monitors ping
-			timex.VerifAdvance(30 * time.Second)
+			c03CleanBreaker()
 			time.Sleep(2 * time.Millisecond)
 		}
 	}
+	recoverAll := func() string {
+		t0 := time.Now()
+		bound := 20 * time.Second
+		if c03Timeouts.Load() > 0 {
+			bound = 3 * time.Second // a monitor that never comes back must not cost 40 s per `up`
+		}
+		res := settle(bound)
+		if res == "" {
+			// once more: recovery latency is not part of the property, only that it happens
+			res = settle(bound)
+		}
+		if res == "" {
+			c03Timeouts.Add(1)
+			// diagnosis for the record: what a ping and a plain command see right now
+			_, gerr := store.Get("verif-probe")
+			return fmt.Sprintf("TIMEOUT-monitor waited=%dms ping=%v get=%s %s", time.Since(t0).Milliseconds(),
+				store.Ping(), strings.ReplaceAll(fmt.Sprint(gerr), " ", "_"), allFlags())
+		}
+		return res
+	}
+	call := func(l *TokenLimiter, verb string, ns int64, n int) bool {
+		switch verb {
+		case "allowc":
+			return l.AllowNCtx(context.Background(), time.Unix(0, ns), n)
+		case "allowx":
+			return l.AllowNCtx(c03Cancelled(), time.Unix(0, ns), n)
+		}
+		return l.AllowN(time.Unix(0, ns), n)
+	}
 	step := func(op []string) string {
+		c03CleanBreaker()
 		switch op[0] {
 		case "ft":
 			mr.FastForward(time.Duration(verifh.Atoi(op[1])) * time.Millisecond)
 			return "ok"
 		case "down":
-			mr.SetError(c03DownMsg)
+			c03Mode.Store(1)
+			return "ok"
+		case "upstore":
+			c03Mode.Store(2)
 			return "ok"
 		case "up":
-			mr.SetError("")
-			timex.VerifAdvance(30 * time.Second)
-			if !settle() {
-				// once more: recovery latency is not part of the property, only that it happens
-				mr.SetError("")
-				if !settle() {
-					return "TIMEOUT-monitor"
-				}
-			}
-			return "ok"
-		case "allow":
+			c03Mode.Store(0)
+			return recoverAll()
+		case "latefail":
+			// The store is reachable again.  The monitor goroutine of instance i is held in the window
+			// "redisAlive=1 stored, deferred monitorStarted=false not yet run" (its deferred func needs
+			// rescueLock, which the harness holds), then ONE late failure is delivered: the error path of a
+			// request that was in flight during the outage calls startMonitor() - exactly this call.
+			// Releasing the lock and calling startMonitor from the same running goroutine lets the call
+			// overtake the (parked) monitor goroutine; should the monitor win instead, the call simply starts
+			// a fresh monitor.  Either way the code as it is ends with every instance back on the store.
 			i := verifh.Atoi(op[1])
 			if i < 0 || i >= ninst {
 				return "bad-op"
 			}
-			ok := lims[i].AllowN(time.Unix(0, verifh.Atoi64(op[2])), verifh.Atoi(op[3]))
-			if ok {
-				return "ok " + dump()
+			l := lims[i]
+			a, m := lockedFlags(l)
+			if a || !m {
+				// not in rescue mode: a late failure is an ordinary failed request's error path
+				c03Mode.Store(0)
+				l.startMonitor()
+				return recoverAll()
 			}
-			return "no " + dump()
+			l.rescueLock.Lock()
+			c03Mode.Store(0)
+			deadline := time.Now().Add(20 * time.Second)
+			for atomic.LoadUint32(&l.redisAlive) == 0 {
+				if time.Now().After(deadline) {
+					l.rescueLock.Unlock()
+					return "TIMEOUT-monitor waiting for the held monitor to store redisAlive=1 " + allFlags()
+				}
+				c03CleanBreaker()
+				time.Sleep(200 * time.Microsecond)
+			}
+			time.Sleep(2 * time.Millisecond) // let the goroutine reach its deferred Lock
+			l.rescueLock.Unlock()
+			l.startMonitor()
+			return recoverAll()
+		case "allow", "allowc", "allowx":
+			i := verifh.Atoi(op[1])
+			if i < 0 || i >= ninst {
+				return "bad-op"
+			}
+			before, _ := flags(lims[i])
+			ok := call(lims[i], op[0], verifh.Atoi64(op[2]), verifh.Atoi(op[3]))
+			a, m := flags(lims[i])
+			res := "no"
+			if ok {
+				res = "ok"
+			}
+			return fmt.Sprintf("%s a=%s s=%s%s %s", res, b2s(before), b2s(a), b2s(m), dump())
 		case "callow":
 			ns, n, m := verifh.Atoi64(op[1]), verifh.Atoi(op[2]), verifh.Atoi(op[3])
 			if m > ninst {
@@ -439,11 +889,85 @@ func c03Token(mr *miniredis.Miniredis, store *redis.Redis, cfg verifh.Cfg) (func
 			}
 			// who wins is schedule dependent on the store path (the driver then reads only the count)
 			return fmt.Sprintf("%d %s %s", grants, bits, dump())
+		case "cstorm":
+			// g goroutines x c calls of (ns, n); goroutine j uses instance j % ninst (so instances are
+			// shared by goroutines as soon as g > ninst)
+			ns, n, g, c := verifh.Atoi64(op[1]), verifh.Atoi(op[2]), verifh.Atoi(op[3]), verifh.Atoi(op[4])
+			if g < 1 || c < 1 || g*c > 256 {
+				return "bad-op"
+			}
+			grants := make([]int64, ninst)
+			var wg sync.WaitGroup
+			start := make(chan struct{})
+			for j := 0; j < g; j++ {
+				wg.Add(1)
+				go func(j int) {
+					defer wg.Done()
+					<-start
+					for q := 0; q < c; q++ {
+						var ok bool
+						if (j+q)%3 == 0 {
+							ok = lims[j%ninst].AllowNCtx(context.Background(), time.Unix(0, ns), n)
+						} else {
+							ok = lims[j%ninst].AllowN(time.Unix(0, ns), n)
+						}
+						if ok {
+							atomic.AddInt64(&grants[j%ninst], 1)
+						}
+					}
+				}(j)
+			}
+			close(start)
+			wg.Wait()
+			total := int64(0)
+			per := make([]string, ninst)
+			for i, x := range grants {
+				total += x
+				per[i] = strconv.FormatInt(x, 10)
+			}
+			return fmt.Sprintf("%d %s %s %s", total, strings.Join(per, ","), allFlags(), dump())
+		case "cmix":
+			// one goroutine per entry inst:n, all at `ns`
+			ns := verifh.Atoi64(op[1])
+			ents := strings.Split(op[2], ",")
+			if len(ents) < 1 || len(ents) > 6 {
+				return "bad-op"
+			}
+			type ent struct{ i, n int }
+			es := make([]ent, len(ents))
+			for q, s := range ents {
+				p := strings.Split(s, ":")
+				if len(p) != 2 {
+					return "bad-op"
+				}
+				es[q] = ent{verifh.Atoi(p[0]), verifh.Atoi(p[1])}
+				if es[q].i < 0 || es[q].i >= ninst {
+					return "bad-op"
+				}
+			}
+			res := make([]bool, len(es))
+			var wg sync.WaitGroup
+			start := make(chan struct{})
+			for q := range es {
+				wg.Add(1)
+				go func(q int) {
+					defer wg.Done()
+					<-start
+					res[q] = lims[es[q].i].AllowN(time.Unix(0, ns), es[q].n)
+				}(q)
+			}
+			close(start)
+			wg.Wait()
+			bits := ""
+			for _, ok := range res {
+				bits += b2s(ok)
+			}
+			return fmt.Sprintf("%s %s %s", bits, allFlags(), dump())
 		}
 		return "bad-op"
 	}
 	return step, func() {
-		mr.SetError("")
-		settle()
+		c03Mode.Store(0)
+		settle(20 * time.Second)
 	}
 }
